@@ -462,7 +462,9 @@ PLUGS = {
     'C15': dict(streams=lambda seed, tier: gen.scenarios_process(seed, sizes(tier, 800, 12000), generic_share=0.0) +
                 [s for s in conv_stream(seed, sizes(tier, 3000, 40000), 'from_data', []) if '"cls"' in json.dumps(s['ty'])] +
                 [s for s in conv_stream(seed + 5, sizes(tier, 1500, 20000), 'roundtrip', []) if '"cls"' in json.dumps(s['ty'])] +
-                gen.scenarios_tuplelayout(seed, sizes(tier, 600, 9000)) + gen.scenarios_shapes(seed, sizes(tier, 400, 6000), op='from_data') +
+                gen.scenarios_tuplelayout(seed, sizes(tier, 600, 9000)) +
+                # the OUT direction of the positional layout (which fields a tuple-format class writes, in which order): C15-10
+                [dict(s, op='roundtrip') for s in gen.scenarios_tuplelayout(seed + 3, sizes(tier, 600, 9000), out_tuple=0.7)] + gen.scenarios_shapes(seed, sizes(tier, 400, 6000), op='from_data') +
                 gen.scenarios_boost(seed, sizes(tier, 200, 2500), op='from_data'),
                 project=proj_full, oracles=[], disagreement_is_failure=True),
     'C16': dict(streams=lambda seed, tier: gen.scenarios_valuesem(seed, sizes(tier, 2000, 30000)) + gen.scenarios_hashtable(seed) +
